@@ -2,6 +2,7 @@ package props
 
 import (
 	"fmt"
+	"gopkg.in/yaml.v3"
 	"math/rand/v2"
 	"strings"
 
@@ -83,6 +84,12 @@ func (p c10) runIdentity(x *c10Exec, c *c10Case) c10Verdict {
 			return c10Verdict{Verdict: mon.Violated, Detail: fmt.Sprintf("[%s] %s failed: %s", x.kind(), c.Cmd, c10Clip(o.Stderr))}
 		}
 		got, perr := c10ParseStream(o.Stdout)
+		if perr != nil && c10HasScalarRoot(c.Files) {
+			// a document whose root is a scalar is printed as the bare value (documented unwrapping; C05's recorded
+			// deviation): a string root that needs quotes to be read back (control characters, `: `) makes the stream
+			// unreadable as YAML. What that means for the document count cannot be decided from the text.
+			return c10Verdict{Verdict: mon.Inconclusive, Tags: []string{"unwrapped_scalar_root_unreadable"}, Detail: "a scalar root printed bare makes the output unreadable for the independent reader: " + perr.Error()}
+		}
 		if perr != nil {
 			return c10Verdict{Verdict: mon.Violated, Detail: fmt.Sprintf("[%s] %s printed a stream yaml.v3 cannot read (%v): %s", x.kind(), c.Cmd, perr, c10Clip(o.Stdout))}
 		}
@@ -294,4 +301,25 @@ func (p c10) runParsed(x *c10Exec, c *c10Case) c10Verdict {
 		v.Verdict, v.Finding = mon.Finding, c10FindingE
 	}
 	return v
+}
+
+// c10HasScalarRoot: some document of the case has a string at its root (read with yaml.v3, not with yq).
+func c10HasScalarRoot(files []c10File) bool {
+	for _, f := range files {
+		dec := yaml.NewDecoder(strings.NewReader(f.Text))
+		for {
+			var n yaml.Node
+			if err := dec.Decode(&n); err != nil {
+				break
+			}
+			root := &n
+			if n.Kind == yaml.DocumentNode && len(n.Content) == 1 {
+				root = n.Content[0]
+			}
+			if root.Kind == yaml.ScalarNode && root.ShortTag() == "!!str" {
+				return true
+			}
+		}
+	}
+	return false
 }
